@@ -466,6 +466,7 @@ func cmdFn(args []string) int {
 	key := fs.String("key", "", "function key (suffix match)")
 	sweep := fs.Bool("sweep", false, "infer invariants")
 	tmo := fs.Int("timeout", 10, "seconds per obligation")
+	ctmo := fs.Int("cand-timeout", 2, "seconds per candidate-invariant check")
 	dump := fs.String("dump", "", "dump SMT script of obligation id (substring)")
 	nc := fs.Bool("nocache", false, "")
 	verbose := fs.Bool("v", false, "")
@@ -488,7 +489,7 @@ func cmdFn(args []string) int {
 	sort.Slice(fns, func(i, j int) bool { return fnKey(fns[i]) < fnKey(fns[j]) })
 	for _, fn := range fns {
 		res := p.VerifyFn(fn, VerifyOpts{Sweep: *sweep})
-		solveAll(res, time.Duration(*tmo)*time.Second, 2*time.Second)
+		solveAll(res, time.Duration(*tmo)*time.Second, time.Duration(*ctmo)*time.Second)
 		printResult(res, *verbose, *dump)
 	}
 	return 0
